@@ -377,6 +377,12 @@ pub proof fn axiom_tz_pow2(k: nat)
 pub fn fmt_stub() -> String { String::new() }
 pub assume_specification<T> [std::option::Option::<T>::replace] (o: &mut std::option::Option<T>, v: T) -> (r: std::option::Option<T>)
     ensures r == *old(o), *final(o) == Some(v);
+// R19: `a.checked_mul(b).unwrap_or_else(|| panic!(..))`: the precondition is exactly "the panic branch is dead"
+#[verifier::external_body]
+pub fn mul_or_panic(a: usize, b: usize) -> (r: usize)
+    requires a * b <= usize::MAX,
+    ensures r == a * b,
+{ a.checked_mul(b).unwrap() }
 // R16: io::Error::new(kind, msg) -> io_error_stub(): kind and message of an io::Error are not modelled
 #[verifier::external_body]
 pub fn io_error_stub() -> std::io::Error { std::io::Error::new(std::io::ErrorKind::Other, "") }
@@ -387,6 +393,11 @@ pub mod ax {
     use vstd::prelude::*;
     use crate::{ReadSpec, WriteSpec};
     use vstd::std_specs::cmp::PartialEqSpec;
+    /// a boxed slice has at most usize::MAX elements (vstd states this for `[T]` reached through a reference only)
+    #[verifier::external_body]
+    pub proof fn axiom_boxed_slice_len<T>(b: &Box<[T]>)
+        ensures b@.len() <= usize::MAX
+    {}
     /// `==` on byte slices compares contents (vstd leaves eq_spec of slices unspecified)
     #[verifier::external_body]
     pub broadcast proof fn axiom_slice_u8_eq(a: &[u8], b: &[u8])
